@@ -1,0 +1,42 @@
+//go:build verif
+
+// Contracts for gzv (contract-based deductive verification, /verif). Comment-only file.
+package discov
+
+// ---------------------------------------------------------------------------------------------
+// C13 subscriber view. Abstract view of the container: reg = c.mapping (key -> value).
+// Representation invariant (lock invariant of c.lock): values is the inverse of mapping with no empty buckets,
+// and a clean snapshot lists exactly the current values.
+// Slices are read through their set view: has(s, x) = x is an element of s.
+// ---------------------------------------------------------------------------------------------
+
+//@ spec cInv(c *container) bool = c.values != nil && c.mapping != nil && c.dirty != nil &&
+//@      forall(k.(string), v.(string), iff(inDom(c.mapping, k) && c.mapping[k] == v, inDom(c.values, v) && has(c.values[v], k))) &&
+//@      forall(v.(string), implies(inDom(c.values, v), len(c.values[v]) > 0 && has(c.values[v], c.values[v][0])))
+//@ spec snapOK(c *container) bool = implies(!abVal[c.dirty], forall(v.(string), boxedset(avVal[addr(c.snapshot)])[v] == inDom(c.values, v)))
+
+//@ lockinv (c *container) lock: cInv(c) && snapOK(c)
+//@ guarded_by values, mapping
+
+//@ func (c *container) doRemoveKey
+//@   property C13
+//@   requires held(c.lock)
+//@   requires cInv(c) && abVal[c.dirty]
+//@   ensures  cInv(c)
+//@   ensures  forall(k.(string), inDom(c.mapping, k) == (k != key && old(inDom(c.mapping, k))))
+//@   ensures  forall(k.(string), implies(inDom(c.mapping, k), c.mapping[k] == old(c.mapping[k])))
+//@   modifies mapof(c.mapping), mapof(c.values)
+//@   allocates
+//@   loop 0: modifies nothing
+//@   loop 0: invariant len(remain) <= idx && forall(x.(string), has(remain, x) == (x != key && visited[x]))
+//@   loop 0: invariant implies(len(remain) > 0, has(remain, remain[0]))
+//@   loop 0: invariant implies(len(remain) == 0, forall(x.(string), !has(remain, x)))
+
+//@ func (c *container) removeKey
+//@   property C13
+//@   flag old_at_lock
+//@   ensures  forall(k.(string), inDom(c.mapping, k) == (k != key && old(inDom(c.mapping, k))))
+//@   ensures  forall(k.(string), implies(inDom(c.mapping, k), c.mapping[k] == old(c.mapping[k])))
+//@   ensures  abVal[c.dirty]
+//@   modifies mapof(c.mapping), mapof(c.values), abVal[c.dirty]
+//@   allocates
